@@ -120,7 +120,11 @@ def run(run, replay, cm):
                 rc, out = _run_file(run, exe, f, known=kstr)
                 if rc: fails += 1; why = _reason(out)
             if fails == 0:
-                run.notes.append(f"artifact {b} did not reproduce on replay; run marked inconclusive for it, not a violation")
+                lg_txt = open(os.path.join(work, f'log{i}.txt'), errors='replace').read()
+                why0 = _reason(lg_txt)
+                run.notes.append(f"artifact {b} of worker {i} did not reproduce on replay ({why0[:200]}); run marked inconclusive for it, not a violation")
+                if os.path.getsize(f) == 0:
+                    run.infra_fail = True   # an empty artifact = the process died outside a unit (start-up / exit): harness problem, never silent
                 continue
             key = re.sub(r'0x[0-9a-f]+|[0-9a-f]{16}|\d+', '#', why)[:160]
             if key in seen_reasons: continue   # same report text modulo numbers: one replay file per root-cause-looking message
@@ -163,6 +167,9 @@ def run(run, replay, cm):
         for s in fr.get('samples', []):
             if len(samples) < 40 and s not in samples: samples.append(s)
         for k, n in fr.get('excluded_known', {}).items(): excl[k] = excl.get(k, 0) + n
+    if tot['execs'] == 0:
+        run.notes.append('no statistics fragment was written by any fuzz worker: nothing was measured, the run does not count')
+        run.infra_fail = True
     cov = ft = 0
     for i, p, lg, art in procs:
         txt = open(os.path.join(work, f'log{i}.txt'), errors='replace').read()
